@@ -1,4 +1,5 @@
 import I18n.Lemmas.PyBraceMarkup
+import I18n.Spec.PyBraceArgs
 /-
 CPython side only: a derivation `Trace cs fs` (how a string decomposes into literal characters, escaped braces and
 replacement fields) determines what the markup iterator yields (`trace_markup`) and what `str.format` does
@@ -15,8 +16,6 @@ inductive Trace : List Char → List Field → Prop where
   | field {c : Char} {r0 rest : List Char} {f : Field} {fs : List Field} : c ≠ '{' → parseField (c :: r0) = .ok (f, rest) →
       Trace rest fs → Trace ('{' :: c :: r0) (f :: fs)
 
-def chunkFields (chunks : List Chunk) : List Field := chunks.filterMap (·.field)
-
 /-- fuel-free view of the iteration with the fields it yields -/
 inductive Yields : List Char → List Field → Prop where
   | done : Yields [] []
@@ -31,7 +30,7 @@ theorem next_rest_lt {cs rest : List Char} {ch : Chunk} (hn : next cs [] = .ok (
   · simp [next] at hn
 
 theorem yields_markupLoop {cs : List Char} {fs : List Field} (h : Yields cs fs) :
-    ∀ fuel, cs.length < fuel → ∃ chunks, markupLoop fuel cs = .ok chunks ∧ chunkFields chunks = fs := by
+    ∀ fuel, cs.length < fuel → ∃ chunks, markupLoop fuel cs = .ok chunks ∧ fieldsOf chunks = fs := by
   induction h with
   | done =>
     intro fuel hf
@@ -45,7 +44,7 @@ theorem yields_markupLoop {cs : List Char} {fs : List Field} (h : Yields cs fs) 
     | succ fuel =>
       have hl := next_rest_lt hn
       obtain ⟨chunks, hc, hfs⟩ := ih fuel (by omega)
-      exact ⟨ch :: chunks, by simp [markupLoop, hn, hc], by simp [chunkFields, hf] at hfs ⊢; exact hfs⟩
+      exact ⟨ch :: chunks, by simp [markupLoop, hn, hc], by simp [fieldsOf, hf] at hfs ⊢; exact hfs⟩
   | @fld cs rest ch f fs hn hf _ ih =>
     intro fuel hfu
     cases fuel with
@@ -53,7 +52,7 @@ theorem yields_markupLoop {cs : List Char} {fs : List Field} (h : Yields cs fs) 
     | succ fuel =>
       have hl := next_rest_lt hn
       obtain ⟨chunks, hc, hfs⟩ := ih fuel (by omega)
-      exact ⟨ch :: chunks, by simp [markupLoop, hn, hc], by simp [chunkFields, hf] at hfs ⊢; exact hfs⟩
+      exact ⟨ch :: chunks, by simp [markupLoop, hn, hc], by simp [fieldsOf, hf] at hfs ⊢; exact hfs⟩
 
 theorem yields_chr {c : Char} {r : List Char} {fs : List Field} (h1 : c ≠ '{') (h2 : c ≠ '}') (h : Yields r fs) : Yields (c :: r) fs := by
   have hn : next (c :: r) [] = next r [c] := by simp [next, h1, h2]
@@ -75,7 +74,7 @@ theorem trace_yields {cs : List Char} {fs : List Field} (h : Trace cs fs) : Yiel
       (by simp only [next, show ¬ ('{' : Char) = '}' by decide, hc, if_false, if_true, hpf]) rfl ih
 
 /-- what the markup iterator yields on a traced string -/
-theorem trace_markup {s : List Char} {fs : List Field} (h : Trace s fs) : ∃ chunks, markup s = .ok chunks ∧ chunkFields chunks = fs :=
+theorem trace_markup {s : List Char} {fs : List Field} (h : Trace s fs) : ∃ chunks, markup s = .ok chunks ∧ fieldsOf chunks = fs :=
   yields_markupLoop (trace_yields h) (s.length + 1) (by omega)
 
 /-! ### `str.format` renders the fields in order -/
